@@ -107,15 +107,34 @@ class Ctx:
         self._workers[key] = out
         return out
 
+    def worker_testbin(self, cover=True, tags="verif"):
+        """The worker built as a real go test binary (go test -c [-cover])."""
+        key = ("testbin", cover, tags)
+        if key in self._workers:
+            return self._workers[key]
+        self.worker(tags=tags)                      # makes sure harness-src exists and builds
+        src = os.path.join(self.scratch, "harness-src")
+        out = os.path.join(self.scratch, "worker-cover.test" if cover else "worker-real.test")
+        cmd = ["go", "test", "-c", "-vet=off", "-tags", tags, "-o", out] + (["-cover"] if cover else []) + ["."]
+        p = subprocess.run(cmd, cwd=src, env=goenv(), capture_output=True, text=True)
+        if p.returncode != 0:
+            raise Undecided("test-binary build of the worker failed:\n" + p.stdout + p.stderr)
+        self._workers[key] = out
+        return out
+
     def run_worker(self, args, race=False, testing=True, timeout=600, stdin=None, env=None, tags="verif",
-                   check=True, cwd=None):
+                   check=True, cwd=None, testbin=None):
         """Run the worker. testing=True -> argv[0] ends in .test and a -test.v=false arg is appended."""
         w = self.worker(race=race, tags=tags)
         argv = [w + ".test" if testing else w] + list(args)
+        if testbin:                                  # a real go test binary ("cover" / "plain")
+            argv = [self.worker_testbin(cover=(testbin == "cover"), tags=tags)] + list(args)
         if testing:
             argv.append("-test.timeout=0")
         e = dict(os.environ)
         e.pop("DEBUG", None)
+        if testbin:
+            e["GOCOVERDIR"] = self.sub("gocover")
         if env:
             e.update(env)
         try:
